@@ -301,7 +301,7 @@ func RunQuery(tmpdir, name, query string, timeoutS int, order []string) SolverRe
 			st = "sat"
 		case first == "timeout" || strings.Contains(first, "timeout") || el >= float64(timeoutS):
 			st = "timeout"
-		case strings.HasPrefix(first, "(error") || strings.Contains(txt, "(error"):
+		case strings.HasPrefix(first, "(error"):
 			st = "error"
 		}
 		res.Tried = append(res.Tried, fmt.Sprintf("%s:%s:%.2fs", sp.name, st, el))
